@@ -79,7 +79,7 @@ func (i *Interceptors) NewSegment(val string) (*Segment, error) {
 
 		seg.Type = Named
 		seg.Suffix = val[end+1:]
-		seg.Endpoint = val[len(val)-1] == endByte
+		seg.Endpoint = seg.Suffix == "" // 参数之后没有其它内容，/{id}/a} 最后的 } 只是普通字符。
 		seg.matcher = func(string) bool { return true }
 		if err := seg.cleanName(); err != nil {
 			return nil, err
@@ -99,7 +99,7 @@ func (i *Interceptors) NewSegment(val string) (*Segment, error) {
 			return nil, err
 		}
 		seg.Suffix = val[end+1:]
-		seg.Endpoint = val[len(val)-1] == endByte
+		seg.Endpoint = seg.Suffix == "" // 参数之后没有其它内容，/{id}/a} 最后的 } 只是普通字符。
 		seg.matcher = matcher
 		seg.calcAmbiguousLength()
 		return seg, nil
